@@ -131,7 +131,18 @@ def run(shard, ctx):
                         t["name"] = "T%d" % k
                 bpm = rng.choice([120, 60, 4, 1000, rng.randint(4, 1000)])
                 w = {"composition": c, "bpm": bpm}
-                st, r = ctx.call(MO.write_Composition, path, MM.build_composition(c), bpm)
+                obj = MM.build_composition(c)
+                if rng.random() < 0.3:
+                    # written and read once, then changed in place, written and read again
+                    ctx.call(MO.write_Composition, path, obj, bpm)
+                    ctx.call(lambda: MI.MIDI_to_Composition(path))
+                    k = rng.randrange(len(c["tracks"]))
+                    last = c["tracks"][k]["bars"][-1]
+                    w["written_before_then_changed"] = [k, MM.change_track(
+                        rng, c["tracks"][k], obj.tracks[k],
+                        lambda: MM.random_bar(rng, last["key"], tuple(last["meter"]), values, velocity=(1, 127)),
+                        lambda: MM.random_notes(rng, velocity=(1, 127)))]
+                st, r = ctx.call(MO.write_Composition, path, obj, bpm)
                 if st != "ok" or r is not True:
                     ctx.check("roundtrip: the writer returns normally", False, w, True, repr(r), mechanism="write-raise")
                     continue
